@@ -362,3 +362,60 @@ _run_j07 = run
 def run(ctx, rep, tier):
     _run_j07(ctx, rep, tier)
     _thompson_fragments(ctx, rep, tier)
+
+
+# ---------------------------------------------------------------------------------------------------------------- C07.l
+def _subset_construction_obligations(ctx, rep, tier):
+    """C07.l: the NFA -> DFA conversion is the textbook subset construction; each of its obligations is a necessary condition of language equality and is visible in the
+    shape of `RegexNFA.convert_to_dfa` (locals match as metavariables)."""
+    model = ctx.model
+    q = "RegexNFA.convert_to_dfa"
+    fn = model.func(q)
+    rep.rule("C07.l", "subset construction: the start subset is the epsilon closure of the start state; for every processed subset and every symbol of the alphabet the successor "
+                      "is the epsilon closure of ALL moves of ALL member states; a subset is finishing iff it contains the finishing state (start subset included); every non-empty "
+                      "move is recorded as a transition of the processed subset; new subsets are queued once")
+    obl = [
+        ("start subset = epsilon closure of the start state",
+         model.has(q, "start_dfa_state = frozenset((get_index(x) for x in self.start_state.epsilon_closure()))"),
+         "the start subset is no longer the epsilon closure of the NFA's start state: expressions that begin with an optional / starred / alternated part lose their first step"),
+        ("the start subset is tested for the finishing state",
+         model.has(q, "if finishing_idx in start_dfa_state:\n    target_dfa.mark_finishing(visited_states[start_dfa_state])"),
+         "the start subset is not marked finishing when it contains the finishing state: expressions that match the empty string never finish there"),
+        ("every new subset is tested for the finishing state",
+         model.has(q, "if finishing_idx in new_state:\n    target_dfa.mark_finishing(visited_states[new_state])"),
+         "new subsets are no longer marked finishing by membership of the finishing state"),
+        ("successor = epsilon closure of the move set, for every symbol of the alphabet",
+         model.has(q, "for potential_move in alphabet:\n    move_result, move_meta = moves(processing, potential_move)\n    if move_result:\n        new_state = epsilon_closure(move_result)\n        ..."),
+         "the successor subset is not the epsilon closure of the moves on that symbol, or not every symbol of the alphabet is tried"),
+        ("a new subset is created and queued once",
+         model.has(q, "if new_state not in visited_states:\n    visited_states[new_state] = RegexNFState()\n    ...\n    to_process.put(new_state)"),
+         "a subset met for the first time is not (only) created and queued then"),
+        ("every non-empty move becomes a transition of the processed subset",
+         model.has(q, "visited_states[processing].transition(potential_move, visited_states[new_state])"),
+         "the transition of the processed subset on the symbol is not recorded for every non-empty move"),
+        ("every subset becomes a state of the result",
+         model.has(q, "for i in visited_states.values():\n    target_dfa.add(i)"),
+         "not every subset found is added to the resulting automaton"),
+    ]
+    for what, ok, msg in obl:
+        rep.check(bool(ok), "C07.l", q, what, msg)
+    mv = model.functions.get(q + ".moves")
+    ok = mv is not None and model.has(q + ".moves", "for i in states:\n    if on in self.states[i].transitions:\n        results.add(get_index(self.states[i].transitions[on]))\n        ...") and \
+        not any(isinstance(n, (ast.Break, ast.Continue)) for n in ast.walk(mv)) and sum(isinstance(n, ast.Return) for n in ast.walk(mv)) == 1
+    rep.check(ok, "C07.l", q + ".moves", "the move set collects the target of EVERY member state that has the symbol (no early exit)",
+              "the move set of a subset no longer collects over all its member states: NFA branches are dropped from the subset (`/ab|ac/`-style prefixes)")
+    ec = model.functions.get(q + ".epsilon_closure")
+    ok = ec is not None and model.has(q + ".epsilon_closure", "for i in states:\n    total |= set((get_index(x) for x in self.states[i].epsilon_closure()))") and \
+        not any(isinstance(n, (ast.Break, ast.Continue)) for n in ast.walk(ec))
+    rep.check(ok, "C07.l", q + ".epsilon_closure", "the closure of a subset is the union of the closures of all its members", "the closure of a move set is not the union over all its members")
+    loop = [n for n in ast.walk(fn) if isinstance(n, ast.While)]
+    rep.check(len(loop) == 1 and ast.unparse(loop[0].test) == "not to_process.empty()" and not any(isinstance(n, ast.Break) for n in ast.walk(loop[0])), "C07.l", q,
+              "the worklist is processed until it is empty", "the worklist loop of the subset construction ends early")
+
+
+_run_l07 = run
+
+
+def run(ctx, rep, tier):
+    _run_l07(ctx, rep, tier)
+    _subset_construction_obligations(ctx, rep, tier)
